@@ -131,6 +131,16 @@ def run_exhaustive(ctx, sau, spec):
 def gen_random(rng):
     n = int(rng.integers(1, 41))
     style = int(rng.integers(0, 6))
+    if rng.integers(0, 1500) == 0:
+        # thousands of samples against a hundred or more queries (len(x) * len(lookup) above 2**20): the sizes at which
+        # the search is used by integral matching on real series
+        k = int(rng.integers(120, 261))
+        n = int(rng.integers(int(1.1 * 2 ** 20 / k), int(1.1 * 2 ** 20 / k) + 3000))
+        x = np.cumsum(rng.uniform(0.5, 1.5, n)) + float(rng.normal(0, 100))
+        picks = np.sort(rng.integers(0, n, k))
+        qs = x[picks] + rng.choice([0.0, 0.2, -0.2, 0.5, 0.7], k) * 0.5
+        qs[0], qs[-1] = min(qs[0], x[0] - 1.0), max(qs[-1], x[-1] + 1.0)
+        return x, np.sort(qs)
     if style == 5:
         # unsigned integer arrays with integer queries (differences of unsigned values wrap around instead of going negative)
         dt = [np.uint8, np.uint16, np.uint32, np.uint64][int(rng.integers(0, 4))]
